@@ -75,6 +75,16 @@ inductive PReach (cap : Nat → Nat) (S0 : List St) : List St → Prop
   | refl : PReach cap S0 S0
   | step (S S') : PReach cap S0 S → PStep cap S S' → PReach cap S0 S'
 
+/-- the same product when `log.Fatalf` really ends the process (logrus' default exit function is os.Exit): once the
+    writer of ANY connection has failed, nothing in the process moves any more -/
+inductive XStep (cap : Nat → Nat) : List St → List St → Prop
+  | at (S : List St) (i : Nat) (s' : St) (hi : i < S.length) : (∀ t ∈ S, t.failed = none) →
+      Step (cap i) S[i] s' → XStep cap S (S.set i s')
+
+inductive XReach (cap : Nat → Nat) (S0 : List St) : List St → Prop
+  | refl : XReach cap S0 S0
+  | step (S S') : XReach cap S0 S → XStep cap S S' → XReach cap S0 S'
+
 /-- connection i is given the submissions `subms[i]` (a list of producers, each a list of messages) -/
 def initP (subms : List (List (List Bytes))) : List St := subms.map initSt
 
